@@ -382,7 +382,7 @@ func (server *Server) handleMessage(conn *Conn, msg *proto.Message) (*Message, e
 // like Redis, so that every command, including the commands which are composed of
 // several handler operations, is atomic with respect to the other connections.
 func (server *Server) executeArrayMessage(conn *Conn, arrayMsg *proto.Array) (*Message, error) {
-	verifYield("exec.lock", conn.Conn)
+	verifYield("exec.lock", &server.commandMutex)
 	server.commandMutex.Lock()
 	defer verifYield("exec.unlock", conn.Conn)
 	defer server.commandMutex.Unlock()
